@@ -25,7 +25,7 @@ DEV = '{"AttachNoPrefix", "EmptySearch", "SegNoParent"}'
 BASE = {'Keys': '<- None', 'MaxKeyLen': 2, 'MaxDepth': 3, 'MaxNodes': 3, 'Kinds': '{"node"}', 'PolChoices': '<- None',
         'MaxPol': 0, 'RootPrefixes': '<- None', 'AttachPrefixes': '<- None', 'QNames': '<- None', 'QFiner': '<- None',
         'QueryOn': 'TRUE', 'Contents': '<- None', 'SegContents': '<- None', 'AppParams': '<- None',
-        'NetContents': '<- None', 'ExtComps': '<- None', 'MaxOps': 0, 'SegRetry': 2, 'InitTrees': '<- Empty0', 'Dev': DEV}
+        'NetContents': '<- None', 'ExtComps': '<- None', 'MaxOps': 0, 'SegRetry': 2, 'MaxSegs': 3, 'InitTrees': '<- Empty0', 'Dev': DEV}
 INV_TREE = ['TypeOK', 'TreeWF', 'MatchGreedy', 'MatchPolNearest', 'MatchEnv', 'GetPolicyNearest', 'FinerIsMatch',
             'NotAttachedNoRoutes']
 INV_RUN = ['TypeOK', 'NotAttachedNoRoutes', 'RegExact', 'CacheWF', 'NoSendOnHit', 'InterestHit', 'InterestMiss',
@@ -70,42 +70,43 @@ def pipe_consts(trees, qnames, maxops, net='P_NetSmall', contents='{"x", ""}', s
 # ------------------------------------------------------------------ stage A
 
 def tlc_jobs(ctx, jobs, par):
-    """jobs: [(label, kind, consts, extra)], kind = 'inv' (invs, props, view) | 'wit' (witness names; with coverage).
-    The TLC runs are independent processes: run `par` of them at a time, handle the results in order."""
+    """jobs: [(label, consts, x)]: x['invs'] / x['props'] / x['view'] are checked; if x['names'] is there the run also
+    collects the witnesses and the actions taken (WCollect / WPost of SchemaTree.tla, one worker) and `names` must be
+    reachable.  The TLC runs are independent processes: `par` at a time, results handled in order."""
     import re
     from concurrent.futures import ThreadPoolExecutor
 
     def one(i, job):
-        label, kind, consts, x = job
+        label, consts, x = job
         c = dict(BASE)
         c.update(consts)
         cfgp = os.path.join(tlc.BUILD, 'x02-A-%d.cfg' % i)
-        if kind == 'inv':
-            tlc.write_cfg(cfgp, constants=c, invariants=x['invs'], properties=x.get('props', ()), view=x.get('view'))
-            return tlc.run('SchemaTreeMC', cfgp, workers=x.get('workers', 4), timeout=2400, tag='x02a%d' % i)
-        tlc.write_cfg(cfgp, constants=c, invariants=['WCollect'], postcondition='WPost')
-        return tlc.run('SchemaTreeMC', cfgp, workers=1, heavy=False, coverage=True, timeout=2400, tag='x02w%d' % i)
+        wit = 'names' in x
+        tlc.write_cfg(cfgp, constants=c, invariants=list(x.get('invs', ())) + (['WCollect'] if wit else []),
+                      properties=x.get('props', ()), view=x.get('view'), postcondition='WPost' if wit else None)
+        return tlc.run('SchemaTreeMC', cfgp, workers=1 if wit else x.get('workers', 4), heavy=not wit, timeout=2400, tag='x02a%d' % i)
     with ThreadPoolExecutor(max_workers=par) as ex:
         futs = [ex.submit(one, i, j) for i, j in enumerate(jobs)]
         results = [f.result() for f in futs]
     cov = collections.Counter()
-    for (label, kind, consts, x), r in zip(jobs, results):
+    for (label, consts, x), r in zip(jobs, results):
         ctx.add_tlc('SchemaTree ' + label, r)
         if os.environ.get('X02_TIMING'):
             print('   %-80s %8d states %6.1fs' % (label, r.distinct, r.wall), flush=True)
-        if kind == 'inv':
-            if r.violated:
-                ctx.violation('X02/spec/SchemaTree/%s' % r.violated, 'TLC: %s violated in SchemaTree (%s)' % (r.violated, label),
-                              {'kind': 'errtrace', 'errtrace': r.errtrace})
+        if r.violated and r.violated != 'postcondition':
+            ctx.violation('X02/spec/SchemaTree/%s' % r.violated, 'TLC: %s violated in SchemaTree (%s)' % (r.violated, label),
+                          {'kind': 'errtrace', 'errtrace': r.errtrace})
+            continue
+        if 'names' not in x:
             continue
         unreached = set(re.findall(r'<<"UNREACHED", "(\w+)">>', r.out))
         missing = [w for w in x['names'] if w in unreached]
-        if missing or r.violated:
-            raise tlc.MachineryError('vacuous: SchemaTree witnesses not reachable (%s): %s %s' % (label, ', '.join(missing), r.violated or ''))
-        for a, (d, t) in r.coverage.items():
-            a = a[2:] if a.startswith('N_') else a
-            if a in ACTIONS:
-                cov[a] += t
+        if missing:
+            raise tlc.MachineryError('vacuous: SchemaTree witnesses not reachable (%s): %s' % (label, ', '.join(missing)))
+        untaken = set(re.findall(r'<<"UNTAKEN", "(\w+)">>', r.out))
+        for a in ACTIONS:
+            if a not in untaken:
+                cov[a] += 1
         ctx.note('A %s: %d witnesses reachable' % (label, len(x['names'])))
     return cov
 
@@ -118,47 +119,48 @@ def stage_a(ctx):
     tree = dict(Keys='<- T_Keys', PolChoices='<- T_Pol', RootPrefixes='<- T_RootPrefixes', QueryOn='FALSE')
     tinv = {'invs': INV_TREE, 'view': 'Lasting', 'workers': w}
     if q:
-        jobs.append(('T: trees <= 2 nodes, 1 policy, names <= 3', 'inv', dict(tree, MaxPol=1, MaxNodes=2, INames='<- T_INames'), tinv))
+        jobs.append(('T: trees <= 2 nodes, 1 policy, names <= 3', dict(tree, MaxPol=1, MaxNodes=2, INames='<- T_INames'), tinv))
     else:
-        jobs.append(('T: trees <= 3 nodes, 1 policy, names <= 3', 'inv', dict(tree, MaxPol=1, MaxNodes=3, INames='<- T_INames'), tinv))
-        jobs.append(('T: trees <= 2 nodes, 2 policies, names <= 4', 'inv', dict(tree, MaxPol=2, MaxNodes=2, INames='<- T_INames4'), tinv))
-    jobs.append(('T: trees <= %d nodes with SegmentedNode / LocalResource, 1 policy' % ctx.pick(2, 3), 'inv',
+        jobs.append(('T: trees <= 3 nodes, 1 policy, names <= 3', dict(tree, MaxPol=1, MaxNodes=3, INames='<- T_INames'), tinv))
+        jobs.append(('T: trees <= 2 nodes, 2 policies, names <= 4', dict(tree, MaxPol=2, MaxNodes=2, INames='<- T_INames4'), tinv))
+    jobs.append(('T: trees <= %d nodes with SegmentedNode / LocalResource, 1 policy' % ctx.pick(2, 3),
                  dict(tree, MaxPol=1, MaxNodes=ctx.pick(2, 3), INames='<- S_INames', Keys='<- S_Keys', Kinds='{"node", "seg", "local"}',
                       RootPrefixes='<- None'), tinv))
-    jobs.append(('T: witnesses + coverage (queries on)', 'wit',
+    jobs.append(('T: build + queries on the witness tree',
                  dict(InitTrees='<- W_Trees', Keys='<- T_KeysW', PolChoices='<- T_PolW', MaxPol=2, MaxNodes=4, MaxKeyLen=1,
-                      RootPrefixes='<- T_RootPrefixes', QNames='<- W_QNames', QFiner='<- W_QFiner'), {'names': W_TREE}))
+                      RootPrefixes='<- T_RootPrefixes', QNames='<- W_QNames', QFiner='<- W_QFiner'), {'invs': ['TypeOK', 'TreeWF'], 'names': W_TREE}))
     # R: registration
     reg = dict(Keys='<- R_Keys', PolChoices='<- R_Pol', AttachPrefixes='<- R_Prefixes', QueryOn='FALSE')
     mp, mn = ctx.pick((2, 3), (3, 4))
-    jobs.append(('R: trees <= %d nodes, %d Register / Cache policies, every refusal point' % (mn, mp), 'inv',
+    jobs.append(('R: trees <= %d nodes, %d Register / Cache policies, every refusal point' % (mn, mp),
                  dict(reg, MaxPol=mp, MaxNodes=mn, INames='<- R_INames'),
                  {'invs': ['TypeOK', 'TreeWF', 'RegExact', 'NotAttachedNoRoutes'], 'view': 'Lasting', 'workers': w}))
-    jobs.append(('R: attach + one Interest, witnesses + coverage', 'wit',
-                 dict(reg, MaxPol=2, MaxNodes=2, MaxKeyLen=1, QNames='<- R_QNamesB', MaxOps=1), {'names': W_REG}))
+    jobs.append(('R: trees <= 2 nodes, attach, one Interest',
+                 dict(reg, MaxPol=2, MaxNodes=2, MaxKeyLen=1, QNames='<- R_QNamesB', MaxOps=1), {'invs': INV_RUN, 'names': W_REG}))
     # P: pipelines on the prepared trees
-    ops = ctx.pick(2, 3)
     for i, (trees, names) in enumerate((('P_Trees1', 'P_QNames1'), ('P_Trees2', 'P_QNames2'), ('P_Trees3', 'P_QNames3'))):
-        jobs.append(('P: tree %d, %d operations' % (i + 1, ops), 'inv',
-                     pipe_consts(trees, names, ops, QueryOn='FALSE', net=ctx.pick('P_NetSmall', 'P_Net')),
-                     {'invs': INV_RUN, 'props': ['CacheMonotone'], 'workers': w}))
-        jobs.append(('P: tree %d, witnesses + coverage' % (i + 1), 'wit', pipe_consts(trees, names, 2, QueryOn='FALSE', net='P_Net'),
-                     {'names': W_PIPE_BY_TREE[i]}))
+        jobs.append(('P: tree %d, 2 operations' % (i + 1), pipe_consts(trees, names, 2, QueryOn='FALSE', net='P_Net'),
+                     {'invs': INV_RUN, 'props': ['CacheMonotone'], 'names': W_PIPE_BY_TREE[i]}))
+        if not q:
+            jobs.append(('P: tree %d, 3 operations' % (i + 1), pipe_consts(trees, names, 3, QueryOn='FALSE', net='P_NetSmall'),
+                         {'invs': INV_RUN, 'props': ['CacheMonotone'], 'workers': w}))
     if not q:
-        jobs.append(('P: 2 of 10 policy choices placed by TLC on 4 nodes, 2 operations', 'inv',
+        jobs.append(('P: 2 of 10 policy choices placed by TLC on 4 nodes, 2 operations',
                      pipe_consts('E_Trees', 'P_QNames1', 2, QueryOn='FALSE', PolChoices='<- E_Pol', MaxPol=2),
                      {'invs': INV_RUN, 'props': ['CacheMonotone'], 'workers': w}))
     # S: SegmentedNode and LocalResource
-    segc = pipe_consts('S_Trees', 'S_QNames', ops, QueryOn='FALSE', seg='S_Contents', contents='{"x"}', net='S_Net', ExtComps='<- None',
+    segc = pipe_consts('S_Trees', 'S_QNames', 2, QueryOn='FALSE', seg='S_Contents', contents='{"x"}', net='S_Net', ExtComps='<- None',
                        AppParams='<- None')
-    jobs.append(('S: SegmentedNode / LocalResource, %d operations' % ops, 'inv', segc,
-                 {'invs': INV_RUN, 'props': ['CacheMonotone'], 'workers': w}))
-    jobs.append(('S: witnesses + coverage', 'wit', dict(segc, MaxOps=2), {'names': W_SEG}))
+    jobs.append(('S: SegmentedNode / LocalResource, 2 operations', segc, {'invs': INV_RUN, 'props': ['CacheMonotone'], 'names': W_SEG}))
+    if not q:
+        jobs.append(('S: SegmentedNode / LocalResource, 3 operations', dict(segc, MaxOps=3),
+                     {'invs': INV_RUN, 'props': ['CacheMonotone'], 'workers': w}))
     cov = tlc_jobs(ctx, jobs, ctx.pick(5, 4))
     for a in ACTIONS:
         if cov[a] == 0:
-            raise tlc.MachineryError('vacuous: SchemaTree action %s never taken in the coverage configurations' % a)
-    ctx.note('A: every action taken (%s)' % ', '.join('%s %d' % (a, cov[a]) for a in ACTIONS))
+            raise tlc.MachineryError('vacuous: SchemaTree action %s never taken in the witness configurations' % a)
+    ctx.note('A: every action taken (number of witness configurations in which it is: %s)' %
+             ', '.join('%s %d' % (a, cov[a]) for a in ACTIONS))
 
 
 # ------------------------------------------------------------------ stage B
@@ -381,7 +383,7 @@ def stage_b(ctx, recs):
                QueryOn='FALSE')
     graphs.append(('R registration', dict(reg, MaxPol=ctx.pick(1, 2), MaxNodes=ctx.pick(2, 3), MaxKeyLen=ctx.pick(1, 2)), 0.1))
     for i, (trees, names) in enumerate((('P_Trees1', 'P_QNames1'), ('P_Trees2', 'P_QNames2'), ('P_Trees3', 'P_QNames3'))):
-        graphs.append(('P pipelines, tree %d' % (i + 1), pipe_consts(trees, ctx.pick('P_QNamesB%d' % (i + 1), names), ctx.pick(1, 2),
+        graphs.append(('P pipelines, tree %d' % (i + 1), pipe_consts(trees, names, ctx.pick(1, 2),
                                                                     QueryOn='FALSE'), 0.1))
     graphs.append(('S segmented / local', pipe_consts('S_Trees', 'S_QNames', ctx.pick(1, 2), QueryOn='FALSE', seg='S_Contents',
                                                       contents='{"x"}', net='S_Net', ExtComps='<- None', AppParams='<- None'), 0.1))
@@ -582,7 +584,7 @@ def stage_c(ctx, recs):
 TRACE_CONSTS = {'Keys': '<- TrNone', 'MaxKeyLen': 1, 'MaxDepth': 9, 'MaxNodes': 80, 'Kinds': '<- TrNone', 'PolChoices': '<- TrNone',
                 'MaxPol': 1000, 'RootPrefixes': '<- TrNone', 'AttachPrefixes': '<- TrNone', 'QNames': '<- TrNone', 'QFiner': '<- TrNone',
                 'QueryOn': 'TRUE', 'Contents': '<- TrNone', 'SegContents': '<- TrNone', 'AppParams': '<- TrNone',
-                'NetContents': '<- TrNone', 'ExtComps': '<- TrNone', 'MaxOps': 1000, 'SegRetry': 2, 'InitTrees': '<- TrNone',
+                'NetContents': '<- TrNone', 'ExtComps': '<- TrNone', 'MaxOps': 1000, 'SegRetry': 2, 'MaxSegs': 1000, 'InitTrees': '<- TrNone',
                 'Dev': '<- TrDev', 'INames': '<- TrNames'}
 TRACE_INVS = ['TypeOK', 'TreeWF', 'MatchGreedy', 'MatchPolNearest', 'MatchEnv', 'GetPolicyNearest', 'FinerIsMatch',
               'NotAttachedNoRoutes', 'RegExact', 'CacheWF', 'NoSendOnHit', 'InterestHit', 'InterestMiss', 'LocalOnlyNeverSends']
